@@ -6,6 +6,7 @@
 #include <OpenVolumeMesh/Mesh/PolyhedralMesh.hh>
 #include <OpenVolumeMesh/Mesh/TetrahedralMesh.hh>
 #include <OpenVolumeMesh/Mesh/HexahedralMesh.hh>
+#include <OpenVolumeMesh/Attribs/StatusAttrib.hh>
 
 #include <memory>
 #include <map>
@@ -269,6 +270,41 @@ inline std::vector<VertexHandle> vs_of(const std::vector<int> &l) { std::vector<
 
 inline const long long VOID = -2;
 
+// list-valued result of the last call (e.g. the tracked handles after status_gc)
+inline std::vector<int> &last_list() { static std::vector<int> v; return v; }
+
+// StatusAttrib::garbage_collection: marks flat in c.l (<<nV, v.., nE, e.., nF, f.., nC, c..>>),
+// c.f = preserve manifoldness, c.a = 1: hand in EVERY vertex / halfedge / halfface / cell handle for tracking
+inline void do_status_gc(TopologyKernel &m, const CallRec &c) {
+    StatusAttrib st(m);
+    size_t p = 0;
+    auto take = [&](auto mark) { int n = c.l.at(p++); for (int i = 0; i < n; ++i) mark(c.l.at(p++)); };
+    take([&](int h) { st[VertexHandle(h)].set_deleted(true); });
+    take([&](int h) { st[EdgeHandle(h)].set_deleted(true); });
+    take([&](int h) { st[FaceHandle(h)].set_deleted(true); });
+    take([&](int h) { st[CellHandle(h)].set_deleted(true); });
+    auto &out = last_list(); out.clear();
+    if (c.a == 1) {
+        std::vector<VertexHandle> vh; std::vector<HalfEdgeHandle> hh; std::vector<HalfFaceHandle> hfh; std::vector<CellHandle> ch;
+        for (int i = 0; i < (int)m.n_vertices(); ++i) vh.emplace_back(i);
+        for (int i = 0; i < (int)m.n_halfedges(); ++i) hh.emplace_back(i);
+        for (int i = 0; i < (int)m.n_halffaces(); ++i) hfh.emplace_back(i);
+        for (int i = 0; i < (int)m.n_cells(); ++i) ch.emplace_back(i);
+        std::vector<VertexHandle *> vp; std::vector<HalfEdgeHandle *> hp; std::vector<HalfFaceHandle *> hfp; std::vector<CellHandle *> cp;
+        for (auto &x : vh) vp.push_back(&x);
+        for (auto &x : hh) hp.push_back(&x);
+        for (auto &x : hfh) hfp.push_back(&x);
+        for (auto &x : ch) cp.push_back(&x);
+        st.garbage_collection(vp, hp, hfp, cp, c.f);
+        for (auto &x : vh) out.push_back(x.idx());
+        for (auto &x : hh) out.push_back(x.idx());
+        for (auto &x : hfh) out.push_back(x.idx());
+        for (auto &x : ch) out.push_back(x.idx());
+    } else {
+        st.garbage_collection(c.f);
+    }
+}
+
 // returns the call's result; *known = false if the op is not a kernel call
 inline long long do_kernel_call(TopologyKernel &m, const CallRec &c, bool *known) {
     *known = true;
@@ -297,6 +333,7 @@ inline long long do_kernel_call(TopologyKernel &m, const CallRec &c, bool *known
     if (op == "enable_ebu") { m.enable_edge_bottom_up_incidences(c.f); return VOID; }
     if (op == "enable_fbu") { m.enable_face_bottom_up_incidences(c.f); return VOID; }
     if (op == "clear") { m.clear(c.f); return VOID; }
+    if (op == "status_gc") { do_status_gc(m, c); return VOID; }
     *known = false;
     return VOID;
 }
